@@ -95,6 +95,7 @@ type c02Obs struct {
 	astText    string   // String() of the AST the parser returned
 	hasIdent   bool     // a variable survives in that AST
 	generateOK bool
+	repeatDiff string // non-empty: a second evaluation of the same function on equal arguments differed
 }
 
 func c02Run(fg *value.FunctionGenerator, text string, names []string, tuples [][]*Tree) c02Obs {
@@ -134,6 +135,22 @@ func c02Run(fg *value.FunctionGenerator, text string, names []string, tuples [][
 		c02ResetTicks()
 		o.out = append(o.out, c01EvalForced(f, args))
 		o.ticks = append(o.ticks, c02TickKey())
+	}
+	// the SAME generated function evaluated again on equal tuples (freshly built argument values):
+	// constants folded into the function must not have been changed by the first evaluations
+	if gerr == nil {
+		for i, tu := range tuples {
+			args := make([]value.Value, len(tu))
+			for j, a := range tu {
+				args[j] = a.Build()
+			}
+			c02ResetTicks()
+			again := c01EvalForced(f, args)
+			if !c01SameOutcome(again, o.out[i]) || c02TickKey() != o.ticks[i] {
+				o.repeatDiff = fmt.Sprintf("tuple %d: first %s [ticks %s], again %s [ticks %s]", i, o.out[i].Human, o.ticks[i], again.Human, c02TickKey())
+				break
+			}
+		}
 	}
 	return o
 }
@@ -413,6 +430,12 @@ func (r *c02State) runCase(p *pgProgram, id int) {
 	if excl {
 		return
 	}
+	if on.repeatDiff != "" || off.repeatDiff != "" {
+		sum.GoViolations = append(sum.GoViolations, GoViolation{CaseID: id,
+			What: "the same generated function gives a different outcome when evaluated again on equal arguments",
+			Sig:  c02Signature(p, "repeated evaluation differs"), Human: human, Expected: "equal outcomes", Observed: "optimizer on: " + on.repeatDiff + " / off: " + off.repeatDiff})
+		return
+	}
 	for i := range off.out {
 		if !c01SameOutcome(off.out[i], on.out[i]) {
 			sum.GoViolations = append(sum.GoViolations, GoViolation{CaseID: id,
@@ -447,6 +470,29 @@ func c02ArgOfKind(kind string, variant int) *Tree {
 		return &Tree{Kind: "list", Repr: "eager", Items: []*Tree{{Kind: "int", I: 1 + variant%2}}}
 	}
 	return &Tree{Kind: "map", Repr: "listmap", Keys: []string{[]string{"a", "c"}[variant%2]}, Items: []*Tree{{Kind: "int", I: 1}}}
+}
+
+// lists that contain c1 (at a non-last position of the constant [c1, c2]) and mostly c2
+func c02ListTuples(c1, c2 int64, variant int) [][]*Tree {
+	li := func(vs ...int64) []*Tree {
+		t := &Tree{Kind: "list", Repr: "eager"}
+		for _, v := range vs {
+			t.Items = append(t.Items, &Tree{Kind: "int", I: int(v)})
+		}
+		return []*Tree{t}
+	}
+	switch variant % 3 {
+	case 0:
+		return [][]*Tree{li(c1, c2, 9), li(5, c2, c1), li(c1, 7)}
+	case 1:
+		return [][]*Tree{li(c2, c1), li(c1, c2), li(4, 4, c1, c2)}
+	}
+	return [][]*Tree{li(c1, c1, c2), li(c2), li(8, c1, c2, 8)}
+}
+
+func c02SharedConstProgram(form int, c1, c2 int64, variant int) *pgProgram {
+	return &pgProgram{T: pgSharedConst(form, "f", "a", pgNId("l"), c1, c2), ArgNames: []string{"l"},
+		Tuples: c02ListTuples(c1, c2, variant), Stream: "shared-constant"}
 }
 
 func c02Corpus() []*pgProgram {
@@ -492,13 +538,19 @@ func c02Corpus() []*pgProgram {
 	}
 	// an impure call inside a capturing closure nested in a non-capturing closure applied to constants
 	// (direct, via map, via a map field, curried, three levels, handed to a method, inside a recursive func)
-	for form := 0; form < 7; form++ {
+	for form := 0; form < pgImpureForms; form++ {
 		t := pgImpureNested(form, int64(form+1), []string{"a", "b", "c", "g"}, 1, 2, 3)
-		if form != 0 {
+		if form != 0 && form != 12 {
 			t = pgNOp("+", t, x())
 		}
 		ps = append(ps, mk(t, ints...))
 	}
+	// a constant list/map literal inside a folded closure is one shared value: it must survive its uses
+	for form := 0; form < 7; form++ {
+		ps = append(ps, c02SharedConstProgram(form, 1, 3, 0))
+	}
+	// [1,2] ~ x directly: the same function evaluated on several tuples and again
+	ps = append(ps, &pgProgram{T: pgNOp("~", pgNList(pgNInt(1), pgNInt(2)), pgNId("l")), ArgNames: []string{"l"}, Tuples: c02ListTuples(1, 2, 0), Stream: "corpus"})
 	// every operator, every pair of constant kinds, the three chain shapes; x ranges over all kinds
 	n := 0
 	for _, op := range pgAllOps {
@@ -521,7 +573,7 @@ func cmdC02(seed int64, tier, outDir string) {
 	lim := syscall.Rlimit{Cur: 24 << 30, Max: 24 << 30}
 	_ = syscall.Setrlimit(syscall.RLIMIT_AS, &lim)
 	c02Setup()
-	n, maxNodes := 800, 36
+	n, maxNodes := 700, 36
 	if tier == "thorough" {
 		n, maxNodes = 30000, 100
 	}
@@ -562,6 +614,10 @@ func cmdC02(seed int64, tier, outDir string) {
 	r := NewRng(seed)
 	for i := 0; i < n; i++ {
 		id++
+		if r.Chance(0.05) {
+			run.runCase(c02SharedConstProgram(r.Pick(7), int64(r.Pick(4)), int64(4+r.Pick(4)), r.Pick(3)), id)
+			continue
+		}
 		run.runCase(pgGenProgramMode(r, c01Statics, maxNodes, true), id)
 	}
 	finish()
